@@ -24,7 +24,7 @@ func (p *c10) Exhaustive() bool { return true }
 
 var (
 	c10Kinds   = []string{"include", "embed"}
-	c10Modes   = []string{"plain", "with", "only", "with+only", "with-override", "with-variable+only", "with-variable", "with-conditional", "with-conditional+only"}
+	c10Modes   = []string{"plain", "with", "only", "with+only", "with-override", "with-variable+only", "with-variable", "with-conditional", "with-conditional+only", "name-expression-that-assigns", "with-hash-that-assigns"}
 	c10Sites   = []string{"top", "loop", "block-of-extending-host", "macro", "if", "host-block-same-name"}
 	c10Targets = []string{"plain", "sets-colliding", "sets-fresh", "extends-base", "extends-base-sets", "blocks-from-use-only"}
 	c10Pool    = []string{"x", "y", "w", "z"}
@@ -129,10 +129,20 @@ func c10construct(c c10cfg, tplName string, over int, tag string) gen.Node {
 		with = &gen.ETern{C: &gen.EBin{Op: "==", L: nm("x"), R: str("hx")}, A: &gen.EHash{Keys: []gen.Expr{nm("w")}, Vals: []gen.Expr{str("cw-" + tag)}}, B: &gen.EHash{Keys: []gen.Expr{nm("w")}, Vals: []gen.Expr{str("other")}}}
 		only = c.mode == 8
 	}
-	if c.kind == 0 {
-		return &gen.NInclude{Tpl: str(tplName), With: with, Only: only}
+	var name gen.Expr = str(tplName)
+	switch c.mode {
+	case 9:
+		// the expression that names the template assigns (a callback using its context): the target is handed the
+		// variables as they are when it starts, not as they were when the tag began
+		// (the name itself comes out of a recorded callback: it is asked for once)
+		name = &gen.EBin{Op: "~", L: &gen.ECall{Fn: "setvar", Args: []gen.Expr{str("z"), str("set-by-name-" + tag)}}, R: &gen.ECall{Fn: "ident", Args: []gen.Expr{str(tplName)}}}
+	case 10:
+		with = &gen.EHash{Keys: []gen.Expr{nm("w")}, Vals: []gen.Expr{&gen.EBin{Op: "~", L: &gen.ECall{Fn: "setvar", Args: []gen.Expr{str("x"), str("set-by-with-" + tag)}}, R: str("ww-" + tag)}}}
 	}
-	e := &gen.NEmbed{Tpl: str(tplName), With: with, Only: only}
+	if c.kind == 0 {
+		return &gen.NInclude{Tpl: name, With: with, Only: only}
+	}
+	e := &gen.NEmbed{Tpl: name, With: with, Only: only}
 	if over&1 != 0 {
 		ov := append([]gen.Node{tx("{OV-ba-" + tag + "}")}, c10probe("ov.ba")...)
 		if c.target%2 == 0 {
@@ -151,7 +161,7 @@ func (p *c10) buildCfg(c c10cfg) *Program {
 	ts := map[string]*gen.Template{}
 	// the host's import alias reaches the target when the host has one (not in sites 2 and 3) and the construct
 	// passes the host's variables on (no 'only')
-	callHost := c.site != 2 && c.site != 3 && (c.mode == 0 || c.mode == 1 || c.mode == 4 || c.mode == 6 || c.mode == 7)
+	callHost := c.site != 2 && c.site != 3 && (c.mode == 0 || c.mode == 1 || c.mode == 4 || c.mode == 6 || c.mode == 7 || c.mode == 9 || c.mode == 10)
 	c10target(ts, "tgt", c.target, callHost)
 	var site []gen.Node
 	site = append(site, c10construct(c, "tgt", c.over, "1"))
@@ -380,7 +390,7 @@ func (p *c10) Describe(i int) interface{} {
 
 func (p *c10) Run(i int) (res fw.Result) {
 	prog, sig, nt := p.build(i)
-	lib, _, ok := modelCase(&res, "c10:"+sig, prog, gen.Canon{}, false)
+	lib, _, ok := modelCase(&res, "c10:"+sig, prog, gen.Canon{}, true)
 	if !ok {
 		res.Fail("harness", "c10:oor:"+sig, "case left the model's region ("+lastLayout+")", prog.describe())
 		return
